@@ -515,7 +515,7 @@ theorem runP_single_noarg {tbl : List OptSpec} {s : Name} {o : OptSpec} {b : Boo
   have hi : (PS.init tbl).afterDD = false := rfl
   rw [runP]
   simp only [hi, Bool.false_eq_true, if_false, hs, hc, closeRun_init, applyAll]
-  rcases hk with hk | hk | hk <;> simp only [hk] <;> cases applyNoArg o (PS.init tbl) <;> simp [runP]
+  rcases hk with hk | hk | hk <;> simp only [hk] <;> cases applyNoArg o (PS.init tbl) <;> simp [runP, valueMissing, hk]
 
 structure SingleOk (q : Parser) (args : List Name) (o : OptSpec) (v : Val) : Prop where
   ok : ∃ ns, runParser q args = .ok ns ∧
@@ -579,6 +579,26 @@ theorem runParser_help {q : Parser} (hp : posOk q.opts = true) {s : Name} {o : O
   rw [runParser_eq hp, ambiguousIn_opt hc [] rfl, runP_single_noarg hs hc (Or.inr (Or.inr hk))]
   simp [applyNoArg, hk]
 
+/-- what an `action='help'` / `action='version'` option ends the parse with -/
+def infoExit : Kind → Option Fail
+  | .help => some (.exit 0)
+  | .version v => some (.version v)
+  | _ => none
+
+/-- a help / version option as the first argument of a parser ends the parse with status 0, whatever follows
+(unknown options, stray words, missing required options and positionals are reported only at the end of the
+scan) — unless an ambiguous abbreviation follows before `--` (that test precedes all actions) -/
+theorem runParser_info_head {q : Parser} (hp : posOk q.opts = true) {s : Name} {o : OptSpec} {b : Bool} {e : Fail}
+    (hs : s ≠ dd) (hc : classify q.opts s = .opt o b none) (hk : infoExit o.kind = some e)
+    (rest : List Name) (ha : ambiguousIn q.opts rest = false) :
+    runParser q (s :: rest) = .error e := by
+  have hi : (PS.init q.opts).afterDD = false := rfl
+  rw [runParser_eq hp, ambiguousIn_opt hc rest ha, runP]
+  simp only [hi, Bool.false_eq_true, if_false, hs, hc, closeRun_init, applyAll]
+  cases hk' : o.kind <;> simp only [hk', infoExit, Option.some.injEq, reduceCtorEq] at hk
+  · subst hk; simp [applyNoArg, hk', valueMissing]
+  · subst hk; simp [applyNoArg, hk', valueMissing]
+
 /-- `--color` alone: the optional value is absent, the attribute becomes `None` -/
 theorem runParser_optChoice {q : Parser} (hf : finishable q.opts = true) {s : Name} {o : OptSpec} {b : Bool}
     {ch : List Name} {d : Name} (hs : s ≠ dd) (hc : classify q.opts s = .opt o b none)
@@ -587,12 +607,12 @@ theorem runParser_optChoice {q : Parser} (hf : finishable q.opts = true) {s : Na
   apply single_finish hf h2 h3 h4 (ambiguousIn_opt hc [] rfl)
   have hi : (PS.init q.opts).afterDD = false := rfl
   rw [runP]
-  simp only [hi, Bool.false_eq_true, if_false, hs, hc, closeRun_init, applyAll, hk, applyConst, h1, runP]
+  simp only [hi, Bool.false_eq_true, if_false, hs, hc, closeRun_init, applyAll, hk, applyConst, h1, runP, valueMissing]
 
-/-- a value option followed by a word -/
-theorem runParser_value {q : Parser} (hf : finishable q.opts = true) {s w : Name} {o : OptSpec} {b : Bool}
+/-- a value option followed by a word that its `type=` / `choices=` accept: the converted value is stored -/
+theorem runParser_value {q : Parser} (hf : finishable q.opts = true) {s w : Name} {o : OptSpec} {b : Bool} {v : Val}
     (hs : s ≠ dd) (hc : classify q.opts s = .opt o b none) (hk : o.kind = .value)
-    (hw : w ≠ dd) (hcw : classify q.opts w = .word) : SingleOk q [s, w] o (.str w) := by
+    (hw : w ≠ dd) (hcw : classify q.opts w = .word) (hcv : convArg o.conv w = some v) : SingleOk q [s, w] o v := by
   obtain ⟨ps1, h1, h2, h3, h4, _⟩ := mutexOk_init o (PS.init q.opts) rfl
   have haw : ambiguousIn q.opts [w] = false :=
     ambiguousIn_one (Or.inl (by rw [hcw]; intro h; cases h)) [] rfl
@@ -600,7 +620,22 @@ theorem runParser_value {q : Parser} (hf : finishable q.opts = true) {s w : Name
   have hi : (PS.init q.opts).afterDD = false := rfl
   have hiw : isArgWord q.opts (PS.init q.opts) w = true := by simp [isArgWord, hi, hw, hcw]
   rw [runP]
-  simp only [hi, Bool.false_eq_true, if_false, hs, hc, closeRun_init, applyAll, hk, hiw, if_true, applyArg, h1, runP]
+  simp only [hi, Bool.false_eq_true, if_false, hs, hc, closeRun_init, applyAll, hk, hiw, if_true, applyArg, h1, runP,
+    valueMissing, Bool.not_true, hcv]
+
+/-- … and one that they refuse ends the parse with status 2 -/
+theorem runParser_value_refused {q : Parser} (hp : posOk q.opts = true) {s w : Name} {o : OptSpec} {b : Bool}
+    (hs : s ≠ dd) (hc : classify q.opts s = .opt o b none) (hk : o.kind = .value)
+    (hw : w ≠ dd) (hcw : classify q.opts w = .word) (hcv : convArg o.conv w = none) (rest : List Name)
+    (ha : ambiguousIn q.opts rest = false) :
+    runParser q (s :: w :: rest) = .error (.exit 2) := by
+  have haw : ambiguousIn q.opts (w :: rest) = false :=
+    ambiguousIn_one (Or.inl (by rw [hcw]; intro h; cases h)) rest ha
+  have hi : (PS.init q.opts).afterDD = false := rfl
+  have hiw : isArgWord q.opts (PS.init q.opts) w = true := by simp [isArgWord, hi, hw, hcw]
+  rw [runParser_eq hp, ambiguousIn_opt hc _ haw, runP]
+  simp only [hi, Bool.false_eq_true, if_false, hs, hc, closeRun_init, applyAll, hk, hiw, if_true, applyArg,
+    valueMissing, Bool.not_true, hcv]
 
 /-! ### the top level: default command, dispatch, repeated calls -/
 
@@ -730,6 +765,20 @@ theorem parseList_twice (cfg : Cfg) (ap : ArgP) (l : List (Option Name)) :
         | some d =>
           have := (hcond2 d (by simp [hd])).2
           rw [dispatch_unknown_head this (some d :: prepare ap.sw l) (prepare ap.sw l)]
+
+/-- with the private copy the caller sees the answer of `parseList` and its own sequence, unchanged -/
+theorem parseCall_copy {cfg : Cfg} (hc : cfg.copiesArgs = true) (ap : ArgP) (t : Bool) (l : List (Option Name)) :
+    parseCall cfg ap t l = ((parseList cfg ap l).1, l) := by
+  unfold parseCall
+  simp [hc]
+
+/-- a list passed twice parses the same way both times, copy or no copy -/
+theorem parseCall_twice (cfg : Cfg) (ap : ArgP) (l : List (Option Name)) :
+    (parseCall cfg ap false (parseCall cfg ap false l).2).1 = (parseCall cfg ap false l).1 := by
+  unfold parseCall
+  cases hc : cfg.copiesArgs with
+  | true => simp
+  | false => simpa using parseList_twice cfg ap l
 
 theorem parseArgs_eq (cfg : Cfg) (st : St) (argv : List Name) :
     parseArgs cfg st argv =
